@@ -2,7 +2,7 @@
 from harness import tiger
 
 ID = "C19"
-MODULES = ["HeraProofs.Props.C19", "HeraProofs.Props.C19b", "HeraProofs.Props.C19c"]
+MODULES = ["HeraProofs.Props.C19", "HeraProofs.Props.C19b", "HeraProofs.Props.C19c", "HeraProofs.Props.C19d"]
 GENERATED_DEPS = ["Ops.lean", "Stdlib.lean"]
 EXPLANATION = ("Theorem C19_div_mod (all 2^32 operand pairs, via Int.fdiv / Int.fmod lemmas and nonlinear arithmetic): the div and "
                "mod helpers - modelled over the regenerated from_u16 / to_u16 - never raise, return 16-bit words, give 0 for a "
@@ -17,7 +17,11 @@ EXPLANATION = ("Theorem C19_div_mod (all 2^32 operand pairs, via Int.fdiv / Int.
                "changes no other cell, keeps SP and R2..R8 - so consecutive blocks are adjacent and disjoint; first call "
                "included). Stack convention (C19c): C19_size_stack, C19_ord_stack (argument slot FP+3 receives the result, provided the "
                "string does not lie in the scratch slot FP+4; R1, SP, R2..R11 restored; only FP+3 and FP+4 change), C19_not_stack "
-               "(both paths; only the frame cells FP, FP+1, FP+3, FP+4 change; returns to the saved PC_ret). Every other function "
+               "(both paths; only the frame cells FP, FP+1, FP+3, FP+4 change; returns to the saved PC_ret). A routine with a loop "
+               "(C19d): C19_memcpy - the word-copy loop of concat and substring (tstdlib_label_local_memcpy_reg), for every count "
+               "0..65535, all addresses (overlapping, wrapping) and all prior states: returns after exactly 12 n + 7 instructions with "
+               "memory = the forward word-by-word copy, R1 / R2 advanced by n, R3 = 0, FP / FP_alt exchanged back, SP and R5..R10 "
+               "kept; by a loop invariant proved by induction on n (memcpy_loop) over memcpy_iter and memcpy_exit. Every other function "
                "and other layouts are decided by generated caller programs on the real interpreter, in both calling conventions, from "
                "random prior register contents: returns to its caller, SP and FP restored, R1..R10 preserved (stack convention), "
                "functional result (not, size, ord, chr, concat, substring incl. out-of-range bounds, sign of tstrcmp for equal / "
@@ -25,8 +29,9 @@ EXPLANATION = ("Theorem C19_div_mod (all 2^32 operand pairs, via Int.fdiv / Int.
                "stop), arguments unchanged, printint / print output.")
 ASSUMPTIONS = ["proved: div, mod, size / ord / not / malloc of the register convention and size / ord / not of the stack convention (as laid "
                "out when the library is the whole program; failure paths of malloc - out of memory - are not in the theorem); the "
-               "routines with loops (concat, substring, tstrcmp, memcpy), chr, stack-convention malloc and every other layout are decided by the caller-program "
-               "oracle - proving them needs loop invariants over the library text, which was not reached",
+               "copy loop (memcpy) is proved for every count by a loop invariant; the routines that call it or have their own loops "
+               "(concat, substring, tstrcmp), chr, stack-convention malloc and every other layout are decided by the caller-program "
+               "oracle - proving them needs runs across code segments (calls into malloc / memcpy), which was not reached",
                "getline / getchar / getchar_ord: only the calling contract is checked (their values are not specified by the property)",
                "the register convention is checked for: return to caller, SP, FP, result in R1 (which scratch registers it may "
                "clobber is not documented)"]
